@@ -1,6 +1,8 @@
 import NunavutVerif.Model.Config
 import NunavutVerif.Model.ConfigHeap
+import NunavutVerif.Model.ConfigCtx
 import NunavutVerif.Gen.CppDefaults
+import NunavutVerif.Gen.LangTable
 import NunavutVerif.Proto
 /-!
 Driver for the C13 correspondence.  One request per line, tokens separated by one blank.
@@ -18,6 +20,14 @@ Atoms:    raw over `[A-Za-z0-9_.:+-]` (non-empty) or `%<hex of UTF-8>`
   cppstd <defaults|gen> <opts>   `_validate_language_options`                    → ok <V> | err:<e>
   hmerge <0|1> <heap> <E> <a,…>  object-level merges of the dicts at a,… into E (1 = fixed code)
                                  → ok <V result> <initial addresses reachable from the result> <V of each source>
+  proc <C0> <pop>…               a process history (`Model/ConfigCtx.lean`): file system, builders, contexts, reads through
+                                 every access path.  `/`-separated fields:
+                                   W/<path>/<V>  B/<b>/<0|1>  A/<b>/<p,p,…|->  O/<b>/<k>/<V|!>  L/<b>/<k|!>  C/<b>/<j>
+                                   R/<b>/<j>/<cv|co|lv|lo>/<sect|name>/<key>   R/<b>/<j>/<tv|to>/<key>   R/<b>/<j>/nm
+                                 → one answer per op: `-` · `v<V>` · `v!` · `n<name,…>` (sorted) · `err:<e>`
+  ynorm <Y>                      PyYAML's mapping constructor on a mapping node with possibly repeated keys → ok <V>
+  ycfg <C> <Y>…                  `update_from_yaml_string` sequence: construct each document, then `update`
+                                 → ok <V> | err:<e>
 -/
 open NunavutVerif NunavutVerif.Config NunavutVerif.Proto
 
@@ -334,6 +344,157 @@ def opHMerge (args : List String) : String :=
      | _, _, _ => "bad-op")
   | _ => "bad-op"
 
+/-! ### contexts, access paths, process histories -/
+
+/-- a value as the YAML *text* has it: repeated keys allowed (no `wf` test) -/
+def parseRaw (s : String) : Option PV :=
+  match parseV s.toList with
+  | some (v, []) => some v
+  | _ => none
+
+def showCErr : CErr → String
+  | .cfg e => showErr e
+  | .unknownLanguage => "err:unknownLanguage"
+  | .unsupported => "err:unsupported"
+  | .noLanguage => "err:noLanguage"
+  | .noSection => "err:noSection"
+  | .noFile => "err:noFile"
+  | .noContext => "err:noContext"
+  | .dead => "err:dead"
+
+def atomText (a : String) : String := (a.drop 2).toString
+
+/-- `get_config_value_as_bool(section, "stable_support")`: `str(value)` (`None` ↦ `""`, absent ↦ `"false"`),
+false iff it is `"false"` (any case), `"0"` or empty. -/
+def stableOf (sec : PM) : Bool :=
+  let txt : Option String := match sec.get "stable_support" with
+    | none => some "false"
+    | some (.scalar a) | some (.dflt a) =>
+      if a = "n:" then some ""
+      else if a = "b:true" then some "True"
+      else if a = "b:false" then some "False"
+      else if a.startsWith "s:" ∨ a.startsWith "i:" then some (atomText a)
+      else none
+    | some _ => none
+  match txt with
+  | some t => !(t.toLower = "false" || t = "0" || t = "")
+  | none => true
+
+/-- `_validate_language_options(defaults, options)` of the language class of `sect` (which classes override it
+and the shape of the override: `Gen.langValidators`, regenerated from the source). -/
+def validatorOf (sect : String) (dflts opts : PM) : Except Err PM :=
+  match Gen.langValidators.find? (fun v => v.sect = sect) with
+  | none => .ok opts
+  | some v =>
+    if v.kind = "std-groups" then
+      match applyStdDefaults v.key cppKeys.nameKey dflts opts with
+      | .error e => .error e
+      | .ok o' =>
+        match checkCtor cppKeys.ctor cppKeys.alloc ctorOf falsy o' with
+        | .error e => .error e
+        | .ok _ => .ok o'
+    else .ok (opts.set v.key (.scalar "b:true"))
+
+def langEnv : LangEnv String String :=
+  { validateOptions := validatorOf, known := fun l => Gen.langModules.contains l, stable := stableOf,
+    options := "options", defaults := "defaults" }
+
+def pEnv (builtin : PM) : PEnv String String :=
+  { E := langEnv, builtin := builtin, valid := validSection, dflt := dfltLang,
+    resolve := resolveLang extKey dfltLang pyEq }
+
+def parseAccess : List String → Option (Access String)
+  | ["nm"] => some .names
+  | ["tv", k] => (takeAtom k.toList).bind fun (a, r) => if r.isEmpty then some (.tgtValue a) else none
+  | ["to", k] => (takeAtom k.toList).bind fun (a, r) => if r.isEmpty then some (.tgtOption a) else none
+  | [kind, x, k] =>
+    match takeAtom x.toList, takeAtom k.toList with
+    | some (a, []), some (b, []) =>
+      if kind = "cv" then some (.cfgValue a b)
+      else if kind = "co" then some (.cfgOption a b)
+      else if kind = "lv" then some (.langValue a b)
+      else if kind = "lo" then some (.langOption a b)
+      else none
+    | _, _ => none
+  | _ => none
+
+def parsePOp (s : String) : Option (POp String String) :=
+  match s.splitOn "/" with
+  | ["W", p, v] => do
+    let p ← p.toNat?
+    let v ← parseValue v
+    pure (.write p v)
+  | ["B", b, e] => do
+    let b ← b.toNat?
+    pure (.newBuilder b (e = "1"))
+  | ["A", b, ps] => do
+    let b ← b.toNat?
+    let ps ← if ps = "-" then some [] else (splitOnChar ps ',').mapM String.toNat?
+    pure (.addFiles b ps)
+  | ["O", b, k, v] => do
+    let b ← b.toNat?
+    let (k, r) ← takeAtom k.toList
+    if !r.isEmpty then none
+    if v = "!" then pure (.setOverride b k none)
+    else do
+      let v ← parseValue v
+      pure (.setOverride b k (some v))
+  | ["L", b, l] => do
+    let b ← b.toNat?
+    if l = "!" then pure (.setLanguage b none)
+    else do
+      let (k, r) ← takeAtom l.toList
+      if !r.isEmpty then none
+      pure (.setLanguage b (some k))
+  | ["C", b, j] => do
+    let b ← b.toNat?
+    let j ← j.toNat?
+    pure (.create b j)
+  | "R" :: b :: j :: acc => do
+    let b ← b.toNat?
+    let j ← j.toNat?
+    let a ← parseAccess acc
+    pure (.read b j a)
+  | _ => none
+
+def showAns : Ans String String → String
+  | .unit => "-"
+  | .val none => "v!"
+  | .val (some v) => "v" ++ showV v
+  | .names ns => "n" ++ ",".intercalate ((ns.toArray.qsort (· < ·)).toList.map encAtom)
+  | .err e => showCErr e
+
+def opProc (args : List String) : String :=
+  match args with
+  | c0 :: ops =>
+    (match parseValue c0, ops.mapM parsePOp with
+     | some (.map c), some pops =>
+       " ".intercalate ("ok" :: ((Proc.run (pEnv c) ⟨[], []⟩ pops).2.map showAns))
+     | _, _ => "bad-op")
+  | _ => "bad-op"
+
+def opYNorm (args : List String) : String :=
+  match args with
+  | [y] =>
+    (match parseRaw y with
+     | some v => "ok " ++ showV (normV v)
+     | none => "bad-op")
+  | _ => "bad-op"
+
+def opYCfg (args : List String) : String :=
+  match args with
+  | c0 :: docs =>
+    (match parseValue c0, docs.mapM parseRaw with
+     | some (.map c), some ds =>
+       let r := ds.foldl (fun (acc : Except Err PM) d => match acc with
+         | .ok c => update validSection c (normV d)
+         | .error e => .error e) (.ok c)
+       (match r with
+        | .ok c => "ok " ++ showV (.map c)
+        | .error e => showErr e)
+     | _, _ => "bad-op")
+  | _ => "bad-op"
+
 def answer (line : String) : String :=
   match line.splitOn " " with
   | "merge" :: args => opMerge args
@@ -341,6 +502,9 @@ def answer (line : String) : String :=
   | "build" :: args => opBuild args
   | "cppstd" :: args => opCppStd args
   | "hmerge" :: args => opHMerge args
+  | "proc" :: args => opProc args
+  | "ynorm" :: args => opYNorm args
+  | "ycfg" :: args => opYCfg args
   | _ => "bad-op"
 
 def main : IO Unit := serve answer
